@@ -86,6 +86,13 @@ impl<T: Write + Read + Seek> E57Writer<T> {
         Extension::validate_name(&extension.namespace)?;
         Extension::validate_name_start(&extension.namespace)?;
         Extension::validate_url(&extension.url)?;
+        if self.extensions.iter().any(|e| e.url == extension.url) {
+            // The reader can only tell extensions apart by their URL
+            let url = &extension.url;
+            Error::invalid(format!(
+                "An extension using the URL {url} is already registered"
+            ))?
+        }
         if self
             .extensions
             .iter()
